@@ -218,6 +218,96 @@ class Provider:
         return "v" + "x" * n
 
 
+class DjangoProvider:
+    """The repository's Django OAuth 1 integration (django_oauth1.CacheAuthorizationServer and ResourceProtector), unmodified, over
+    the same rows, cache and deterministic generators (impl/django_provider.py gives the rows the small ORM surface it uses).
+    Its settings name a temporary-credential key prefix of their own.  Checked against the property's oracles only."""
+
+    PREFIX = "tc-verif:"
+
+    def __init__(self, supported, clock, op=None, namegen=None):
+        from impl import django_provider as DP
+        from impl.client_apps import _django_setup
+        _django_setup()
+        from django.conf import settings
+        import authlib.integrations.django_oauth1.authorization_server as DAS
+        import authlib.integrations.django_oauth1.nonce as DNONCE
+        from authlib.integrations.django_oauth1 import CacheAuthorizationServer, ResourceProtector as DjangoResourceProtector
+        self.clock = clock
+        self.ctr = 0
+        self.tokens = []
+        self.namegen = namegen
+        op = op or (lambda name: None)
+        self.cache = Cache(clock, op)
+        self._patched = [(DAS, "cache", DAS.cache), (DNONCE, "cache", DNONCE.cache)]
+        DAS.cache = DNONCE.cache = self.cache
+        settings.AUTHLIB_OAUTH1_PROVIDER = {"signature_methods": list(supported), "temporary_credential_key_prefix": self.PREFIX,
+                                            "nonce_expires_in": NONCE_TTL, "temporary_credential_expires_in": TEMP_TTL}
+        rows = {r["id"]: ClientRow(r) for r in registry()}
+        prov = self
+
+        class TokenRowDj(TokenRow):
+            def __init__(self, oauth_token, oauth_token_secret, user_id, client_id):
+                TokenRow.__init__(self, oauth_token, oauth_token_secret, client_id, user_id)
+
+        ClientModel = DP.fake_model(ClientRow, lambda: list(rows.values()), lambda n: op("query_client") if n.startswith("get") else None)
+        TokenModel = DP.fake_model(TokenRowDj, lambda: prov.tokens,
+                                   lambda n: op("create_token_credential" if n == "save" else "query_token"))
+
+        def token_generator():
+            if prov.namegen:
+                return prov.namegen("token")
+            n = prov.ctr
+            prov.ctr += 1
+            return {"oauth_token": "t" + "x" * n, "oauth_token_secret": "s" + "x" * n}
+
+        self.server = CacheAuthorizationServer(ClientModel, TokenModel, token_generator=token_generator)
+        self.require = DjangoResourceProtector(ClientModel, TokenModel)
+        self.client = self
+
+    def restore(self):
+        for mod, name, val in self._patched:
+            setattr(mod, name, val)
+
+    def verifier_gen(self, length):
+        if self.namegen:
+            return self.namegen("verifier")
+        n = self.ctr
+        self.ctr += 1
+        return "v" + "x" * n
+
+    def open(self, url, method="GET", base_url=None, headers=None, data=None, content_type=None):
+        from django.http import HttpResponse, JsonResponse
+        from impl import django_provider as DP
+        if isinstance(data, (bytes, str)):
+            req = DP.django_request(method, base_url + url, None, dict(headers or {}, **{"Content-Type": content_type or "application/x-www-form-urlencoded"}), body=data)
+        else:
+            req = DP.django_request(method, base_url + url, data if data is not None else {}, headers)
+        path = up.urlsplit(url).path
+        srv = self.server
+        try:
+            if path == "/initiate":
+                resp = srv.create_temporary_credentials_response(req)
+            elif path == "/authorize":
+                uid = req.headers.get("X-User")
+                resp = srv.create_authorization_response(req, grant_user=type("U", (User,), {"pk": property(lambda s: s.uid)})(uid) if uid else None)
+            elif path == "/token":
+                resp = srv.create_token_response(req)
+            else:
+                resp = self.require()(lambda request: JsonResponse({"token": request.oauth1_credential.get_oauth_token()}))(req)
+        except OAuth1Error as e:
+            resp = srv.handle_error_response(e)
+
+        class R:
+            status_code = resp.status_code
+            headers = resp.headers
+
+            @staticmethod
+            def get_data(as_text=False):
+                return resp.content.decode("utf-8", "replace") if as_text else resp.content
+        return R
+
+
 PATHS = {"initiate": "/initiate", "authorize": "/authorize", "exchange": "/token", "access": "/api"}
 
 
@@ -264,12 +354,19 @@ def out_of(op, resp):
 class Live:
     """A provider kept alive while a history is being generated or replayed."""
 
-    def __init__(self, supported):
+    def __init__(self, supported, provider="flask"):
         self.clock = Clock()
         self.real = time.time
         self.real_gen = FAS.generate_token
         time.time = self.clock
-        self.prov = Provider(supported, self.clock)
+        self.provider = provider
+        if provider == "django":
+            import authlib.integrations.django_oauth1.authorization_server as DAS
+            self.prov = DjangoProvider(supported, self.clock)
+            self.DAS, self.real_dgen = DAS, DAS.generate_token
+            DAS.generate_token = self.prov.verifier_gen
+        else:
+            self.prov = Provider(supported, self.clock)
         FAS.generate_token = self.prov.verifier_gen
 
     def step(self, op):
@@ -284,16 +381,20 @@ class Live:
     def close(self):
         time.time = self.real
         FAS.generate_token = self.real_gen
+        if self.provider == "django":
+            self.DAS.generate_token = self.real_dgen
+            self.prov.restore()
 
     def final(self):
         prov = self.prov
-        live = [k[len("temporary_credential:"):] for k in prov.cache.d if k.startswith("temporary_credential:") and prov.cache.has(k)]
+        pre = getattr(prov, "PREFIX", "temporary_credential:")
+        live = [k[len(pre):] for k in prov.cache.d if k.startswith(pre) and prov.cache._live(k)]
         return {"tokens": [[t.oauth_token, t.client_id, t.user_id] for t in reversed(prov.tokens)], "live_temps": sorted(live)}
 
 
-def run_impl(supported, ops):
+def run_impl(supported, ops, provider="flask"):
     """Runs concrete ops on a fresh provider.  Returns outs, final tokens, live temps."""
-    lv = Live(supported)
+    lv = Live(supported, provider)
     try:
         outs = [lv.step(op) for op in ops]
         r = lv.final()
@@ -576,6 +677,27 @@ def check_seq(ctx, supported, ops, labels, tag):
         ctx.count("op:%s -> %s" % (lab.split(":")[0], x[0] if x[0] != "error" else x[2]))
         ctx.count("dev:" + ":".join(lab.split(":")[1:2]))
     ctx.compare("o1provider", case, got, mod)
+    check_history(ctx, supported, ops, got, case)
+    # the same requests against the Django integration (same rows, cache and generators; property oracles only)
+    dgot = run_impl(supported, ops, "django")
+    dcase = dict(case, provider="django")
+    for x in dgot["outs"]:
+        ctx.count("django-out:%s" % (x[0] if x[0] != "error" else x[2]))
+    check_history(ctx, supported, ops, dgot, dcase)
+    if any(t in dgot["live_temps"] for t in temps_exchanged(ops, dgot)):
+        ctx.violation("C12:django:temp-survives-exchange", "a temporary credential is still stored after it was exchanged for token credentials", dcase)
+
+
+def temps_exchanged(ops, got):
+    """temporary credentials that a successful exchange consumed"""
+    out = []
+    for op, x in zip(ops, got["outs"]):
+        if op["op"] == "exchange" and x[0] == "token":
+            out.append(oauth_of(op["req"]).get("oauth_token"))
+    return out
+
+
+def check_history(ctx, supported, ops, got, case):
     # ---- the property, on the implementation's history alone
     now = 1_700_000_000
     temps = {}       # token -> dict(client, secret, verifier, approved, exchanged)
